@@ -342,8 +342,10 @@ func (b *EvaluationKeys) ReadFrom(r io.Reader) (n int64, err error) {
 			}
 
 			n += inc
-		} else {
+		} else if hasKey == 0 {
 			b.MemEvaluationKeySet = nil
+		} else {
+			return n, fmt.Errorf("invalid presence byte %d", hasKey)
 		}
 
 		return n, nil
@@ -397,6 +399,8 @@ func readEvkKey(r buffer.Reader) (key *rlwe.EvaluationKey, n int64, err error) {
 		}
 
 		n += inc
+	} else if hasKey != 0 {
+		return nil, n, fmt.Errorf("invalid presence byte %d", hasKey)
 	}
 	return
 }
